@@ -36,13 +36,19 @@ func registerMoreIntrinsics() {
 		},
 		// wall clock: an arbitrary non-decreasing instant (nanoseconds since the Unix epoch, < 2^62)
 		"time.Now": func(p *Path, _ *ssa.Function, a []Value) Value {
-			return Struct{p.ic(0, 64), p.clockTick(), Ptr(nil)}
+			return p.clockNow("std")
 		},
 		modPath + "/kernel/internal/clock.Now": func(p *Path, _ *ssa.Function, a []Value) Value {
-			return Struct{p.ic(0, 64), p.clockTick(), Ptr(nil)}
+			return p.clockNow("")
 		},
 		modPath + "/kernel/internal/clock.NowUnixNano": func(p *Path, _ *ssa.Function, a []Value) Value {
-			return p.clockTick()
+			return p.clockNano("nano")
+		},
+		modPath + "/zzrt.ClockNow": func(p *Path, _ *ssa.Function, a []Value) Value {
+			return p.clockNow("")
+		},
+		modPath + "/zzrt.ClockNano": func(p *Path, _ *ssa.Function, a []Value) Value {
+			return p.clockNano("nano")
 		},
 		"strings.Contains": func(p *Path, _ *ssa.Function, a []Value) Value {
 			s, ok1 := a[0].(Str).concrete()
@@ -52,47 +58,50 @@ func registerMoreIntrinsics() {
 			}
 			return p.tb.Bool(strings.Contains(s, sub))
 		},
-		// time.Time is modelled as {0, unix nanoseconds, nil}: all arithmetic on it is done here on the nanosecond field
+		// time.Time is modelled as {unix seconds, nanosecond fraction, nil}: all arithmetic on it is done here
 		"(time.Time).Sub": func(p *Path, _ *ssa.Function, a []Value) Value {
-			x, y := a[0].(Struct)[1].(*Term), a[1].(Struct)[1].(*Term)
-			if x.sort.K == KInt {
-				return p.tb.ISub(x, y)
+			s1, f1 := timeParts(a[0])
+			s2, f2 := timeParts(a[1])
+			if s1.sort.K == KInt {
+				return p.tb.ISub(p.clockNsOf(s1, f1), p.clockNsOf(s2, f2))
 			}
-			return p.tb.Sub(x, y)
+			return p.tb.Sub(p.clockNsOf(s1, f1), p.clockNsOf(s2, f2))
 		},
 		"(time.Time).Add": func(p *Path, _ *ssa.Function, a []Value) Value {
-			x, d := a[0].(Struct)[1].(*Term), a[1].(*Term)
-			if x.sort.K == KInt {
-				return Struct{p.ic(0, 64), p.tb.IAdd(x, d), Ptr(nil)}
+			s1, f1 := timeParts(a[0])
+			d := a[1].(*Term)
+			tb := p.tb
+			if s1.sort.K == KInt {
+				ns := tb.IAdd(p.clockNsOf(s1, f1), d)
+				return Struct{tb.IDiv(ns, tb.Int(1000000000)), tb.IMod(ns, tb.Int(1000000000)), Ptr(nil)}
 			}
-			return Struct{p.ic(0, 64), p.tb.Add(x, d), Ptr(nil)}
+			if !d.IsConst() {
+				panic(p.unsupported("time.Add of a symbolic duration in BV mode"))
+			}
+			// constant duration: split into whole seconds and a fraction, carry by comparison
+			dv := d.Signed()
+			q, r := new(big.Int).DivMod(dv, big.NewInt(1000000000), new(big.Int))
+			fs := tb.Add(f1, tb.BVBig(r, 64))
+			carry := tb.Not(tb.Ult(fs, tb.BV(1000000000, 64)))
+			sec := tb.Add(tb.Add(s1, tb.BVBig(new(big.Int).And(q, maskW(64)), 64)), tb.Ite(carry, tb.BV(1, 64), tb.BV(0, 64)))
+			return Struct{sec, tb.Ite(carry, tb.Sub(fs, tb.BV(1000000000, 64)), fs), Ptr(nil)}
 		},
 		"(time.Time).Before": func(p *Path, _ *ssa.Function, a []Value) Value {
-			x, y := a[0].(Struct)[1].(*Term), a[1].(Struct)[1].(*Term)
-			if x.sort.K == KInt {
-				return p.tb.ILt(x, y)
-			}
-			return p.tb.Slt(x, y)
+			return p.timeLess(a[0], a[1])
 		},
 		"(time.Time).After": func(p *Path, _ *ssa.Function, a []Value) Value {
-			x, y := a[0].(Struct)[1].(*Term), a[1].(Struct)[1].(*Term)
-			if x.sort.K == KInt {
-				return p.tb.ILt(y, x)
-			}
-			return p.tb.Slt(y, x)
+			return p.timeLess(a[1], a[0])
 		},
 		"(time.Duration).String": func(p *Path, _ *ssa.Function, a []Value) Value {
 			return Str{sym: &SymStr{kind: "sprint", args: []Value{a[0]}}}
 		},
 		"(time.Time).UnixNano": func(p *Path, _ *ssa.Function, a []Value) Value {
-			return a[0].(Struct)[1]
+			s1, f1 := timeParts(a[0])
+			return p.clockNsOf(s1, f1)
 		},
 		"(time.Time).Unix": func(p *Path, _ *ssa.Function, a []Value) Value {
-			ns := a[0].(Struct)[1].(*Term)
-			if ns.sort.K == KInt {
-				return p.tb.IDiv(ns, p.tb.Int(1000000000))
-			}
-			return p.tb.Sdiv(ns, p.tb.BV(1000000000, 64))
+			s1, _ := timeParts(a[0])
+			return s1
 		},
 		"encoding/json.Marshal": func(p *Path, _ *ssa.Function, a []Value) Value {
 			iv := a[0].(Iface)
@@ -179,25 +188,83 @@ func registerMoreIntrinsics() {
 }
 
 // clockTick returns a fresh symbolic instant not earlier than the previous one.
-func (p *Path) clockTick() *Term {
+// The clock: every reading is a fresh instant not earlier than the previous one (< 2^62 ns).
+// clock.NowUnixNano() readings are nanosecond counts; time.Time readings are (seconds,
+// nanosecond fraction) pairs so that Unix() needs no division; the two kinds are tied by
+// sec*1e9+frac only when a path mixes them.
+func (p *Path) clockLe(a, b *Term) *Term {
+	if a.sort.K == KInt {
+		return p.tb.ILe(a, b)
+	}
+	return p.tb.Ule(a, b)
+}
+
+func (p *Path) clockNsOf(sec, frac *Term) *Term {
+	tb := p.tb
+	if sec.sort.K == KInt {
+		return tb.IAdd(tb.IMul(sec, tb.Int(1000000000)), frac)
+	}
+	return tb.Add(tb.Mul(sec, tb.BV(1000000000, 64)), frac)
+}
+
+func (p *Path) clockFresh(label string, bound uint64, shift uint) *Term {
 	tb := p.tb
 	var t *Term
+	var lim *big.Int
+	if shift > 0 {
+		lim = pow2(int(shift))
+	} else {
+		lim = new(big.Int).SetUint64(bound)
+	}
 	if p.intW(64) {
 		t = p.fresh("clk", SInt)
-		p.assertPC(tb.And(tb.ILe(tb.Int(0), t), tb.ILt(t, tb.IntBig(pow2(62)))))
-		if p.clock != nil {
-			p.assertPC(tb.ILe(p.clock, t))
-		}
+		p.assertPC(tb.And(tb.ILe(tb.Int(0), t), tb.ILt(t, tb.IntBig(lim))))
 	} else {
 		t = p.fresh("clk", SBV(64))
-		p.assertPC(tb.Ult(t, tb.BVBig(pow2(62), 64)))
-		if p.clock != nil {
-			p.assertPC(tb.Ule(p.clock, t))
-		}
+		p.assertPC(tb.Ult(t, tb.BVBig(lim, 64)))
 	}
-	p.clock = t
-	p.inputs = append(p.inputs, InputRec{Kind: "clock", Terms: []*Term{t}})
+	p.inputs = append(p.inputs, InputRec{Kind: "clock", Label: label, Terms: []*Term{t}})
 	return t
+}
+
+func (p *Path) clockTick() *Term { return p.clockNano("nano") }
+
+func (p *Path) clockNano(label string) *Term {
+	t := p.clockFresh(label, 0, 62)
+	switch {
+	case p.clockSec != nil:
+		p.assertPC(p.clockLe(p.clockNsOf(p.clockSec, p.clockFrac), t))
+	case p.clock != nil:
+		p.assertPC(p.clockLe(p.clock, t))
+	}
+	p.clock, p.clockSec, p.clockFrac = t, nil, nil
+	return t
+}
+
+// clockNow returns a time.Time model {seconds, nanosecond fraction, nil}.
+func (p *Path) clockNow(label string) Value {
+	tb := p.tb
+	sec := p.clockFresh(label+"sec", 0, 32)
+	frac := p.clockFresh(label+"frac", 1000000000, 0)
+	switch {
+	case p.clockSec != nil:
+		var lt, eq *Term
+		if sec.sort.K == KInt {
+			lt, eq = tb.ILt(p.clockSec, sec), tb.Eq(p.clockSec, sec)
+		} else {
+			lt, eq = tb.Ult(p.clockSec, sec), tb.Eq(p.clockSec, sec)
+		}
+		p.assertPC(tb.Or(lt, tb.And(eq, p.clockLe(p.clockFrac, frac))))
+	case p.clock != nil:
+		p.assertPC(p.clockLe(p.clock, p.clockNsOf(sec, frac)))
+	}
+	p.clock, p.clockSec, p.clockFrac = nil, sec, frac
+	return Struct{sec, frac, Ptr(nil)}
+}
+
+func timeParts(v Value) (sec, frac *Term) {
+	s := v.(Struct)
+	return s[0].(*Term), s[1].(*Term)
 }
 
 // streaming hash.Hash model: the digest is a function (real on concrete input,
@@ -241,4 +308,14 @@ func (p *Path) hasherCall(op *Opaque, method string, args []Value) Value {
 		return out
 	}
 	panic(p.unsupported("hash.Hash method " + method))
+}
+
+func (p *Path) timeLess(x, y Value) *Term {
+	tb := p.tb
+	s1, f1 := timeParts(x)
+	s2, f2 := timeParts(y)
+	if s1.sort.K == KInt {
+		return tb.Or(tb.ILt(s1, s2), tb.And(tb.Eq(s1, s2), tb.ILt(f1, f2)))
+	}
+	return tb.Or(tb.Slt(s1, s2), tb.And(tb.Eq(s1, s2), tb.Slt(f1, f2)))
 }
